@@ -80,3 +80,41 @@ def run(ctx: Ctx) -> None:
                           "the expected type of a later part is not taken under the solutions found for earlier parts: type variables shared between "
                           "parameters (or tuple elements) are solved independently and the merge keeps the last one, so an ill-typed generic call is accepted")
     ctx.floor("R-C12.5", "multi-part check loops that merge solutions", n_sites, 3)
+    _check_inst(ctx)
+
+
+def _check_inst(ctx: Ctx) -> None:
+    """R-C12.6  an inferred/explicit instantiation is validated parameter by parameter, all of them.
+
+    "…type-checks exactly when an instantiation of its parameters makes the arguments fit": a solution found
+    by unification is only an instantiation if every argument satisfies its parameter's bound (copyable /
+    droppable / const type).  `check_inst` must therefore reach `param.check_arg(arg, …)` (or raise) for
+    EVERY parameter: the loop over `zip(func_ty.params, inst)` has no `return`/`break`, and every path through
+    its body passes the `check_arg` call.  Who-must-call: every function that turns solved variables into an
+    instantiation (`check_call`, `synthesize_call`, `check_type_apply`…) calls `check_inst`.
+    """
+    from ..flow import CFG, node_calls
+    from ..index import call_name, calls_in
+
+    idx = ctx.idx
+    f = idx.find_func("check_inst", MOD)
+    ctx.saw("functions", f.qualname)
+    loops = [n for n in walk_no_nested(f.node) if isinstance(n, ast.For) and "params" in ast.unparse(n.iter)]
+    key = f"{f.qualname}#every-parameter-is-checked"
+    if len(loops) != 1:
+        ctx.undecided("R-C12.6", key, f.where, f"{len(loops)} loops over the parameters")
+    else:
+        loop = loops[0]
+        exits = [type(n).__name__ for st in loop.body for n in ast.walk(st) if isinstance(n, (ast.Return, ast.Break))]
+        g = CFG(body=loop.body)
+        passes = g.every_path_to_exit_passes(lambda n: any(call_name(c) == "check_arg" for c in node_calls(n)))
+        # `continue` ends an iteration without reaching the end of the body: it must come after check_arg too
+        conts = [n for st in loop.body for n in ast.walk(st) if isinstance(n, ast.Continue)]
+        ctx.check(not exits and passes and not conts, "R-C12.6", key, f"{f.module.rel}:{loop.lineno}",
+                  {"early_exits_in_loop": exits, "continue_statements": len(conts), "every_path_calls_check_arg": passes},
+                  "validation of an instantiation stops before (or skips) some parameter: a call whose later type argument violates its "
+                  "parameter's bound (e.g. a qubit for a copyable T) is accepted although no valid instantiation exists")
+    callers = {c.qualname.split(".")[-1] for c in idx.iter_funcs((MOD,)) if any(call_name(x) == "check_inst" for x in calls_in(c.node))}
+    need = {"check_call", "synthesize_call"}
+    ctx.check(need <= callers, "R-C12.6", f"{MOD}#instantiating-functions-validate", f.where, {"callers_of_check_inst": sorted(callers), "required": sorted(need)},
+              "a function that instantiates a generic signature from solved variables does not validate the instantiation")
